@@ -423,6 +423,31 @@ func ruleJSONMarshalSafe(c *Ctx, rule string) {
 					}
 				} else if srcs, closed := ifaceSources(arg); closed && len(srcs) > 0 {
 					ts = srcs
+				} else if prm, isParam := arg.(*ssa.Parameter); isParam {
+					// a rendering helper: the dynamic types are those its callers pass
+					idx := -1
+					for i, p := range fn.Params {
+						if p == prm {
+							idx = i
+						}
+					}
+					okAll := idx >= 0
+					for caller := range c.allFns {
+						if !c.isRepoFn(caller) {
+							continue
+						}
+						for _, cl := range callsTo(caller, fn) {
+							if srcs, closed := ifaceSources(cl.Call.Args[idx]); closed && len(srcs) > 0 {
+								ts = append(ts, srcs...)
+							} else {
+								okAll = false
+							}
+						}
+					}
+					if !okAll || len(ts) == 0 {
+						ob.Und("the marshalled value is a parameter whose callers pass values of undetermined type")
+						return
+					}
 				} else {
 					ob.Und("the marshalled value's type is not determined")
 					return
@@ -480,8 +505,50 @@ func ruleJSONRenderings(c *Ctx, rule string) {
 			ob.Pos = c.pos(fn.Pos())
 			recv := fn.Params[0]
 			found := ""
+			strip := func(v ssa.Value) ssa.Value {
+				for {
+					switch x := v.(type) {
+					case *ssa.MakeInterface:
+						v = x.X
+						continue
+					case *ssa.ChangeType:
+						v = x.X
+						continue
+					case *ssa.TypeAssert:
+						v = x.X
+						continue
+					case *ssa.ChangeInterface:
+						v = x.X
+						continue
+					case *ssa.Convert:
+						v = x.X
+						continue
+					}
+					return v
+				}
+			}
 			instrsOf(fn, func(in ssa.Instruction) {
 				if call, ok := in.(*ssa.Call); ok {
+					// a rendering helper of the same package that hands one of its parameters to encoding/json
+					if sc := call.Call.StaticCallee(); sc != nil && c.isRepoFn(sc) && sc.Pkg == fn.Pkg && found == "" {
+						instrsOf(sc, func(y ssa.Instruction) {
+							if c2, ok := y.(*ssa.Call); ok {
+								if s2 := c2.Call.StaticCallee(); s2 != nil && s2.Pkg != nil && s2.Pkg.Pkg.Path() == "encoding/json" && len(c2.Call.Args) > 0 {
+									if prm, ok := strip(c2.Call.Args[0]).(*ssa.Parameter); ok {
+										for i, p := range sc.Params {
+											if p == prm && i < len(call.Call.Args) {
+												if strip(call.Call.Args[i]) == ssa.Value(recv) {
+													found = s2.Name()
+												} else {
+													found = "other:" + describeValue(call.Call.Args[i], recv)
+												}
+											}
+										}
+									}
+								}
+							}
+						})
+					}
 					if sc := call.Call.StaticCallee(); sc != nil && sc.Pkg != nil && sc.Pkg.Pkg.Path() == "encoding/json" && len(call.Call.Args) > 0 {
 						v := call.Call.Args[0]
 						for {
